@@ -392,6 +392,18 @@ def run(ctx):
         ctx._add(o.status, "C15-D6 sampled-values-independent-of-shot-count", o.construct, o.detail, o.where)
     ctx.functions_analysed |= sub.functions_analysed
     ctx.floor("C15-D6", 3)
+    # "exact expectation values equal the state's quadratic form": the state is the simulator's get_wavefunction, whose
+    # threading of the state through the native / non-native segments is decided once, by C01-D1
+    from ..common import share_rule
+    from . import c01
+
+    def _threading(sub):
+        base = sub.repo.func("api.wavefunction_simulator:BaseWavefunctionSimulator.get_wavefunction")
+        c01.check_threading(sub, base, "initial_state", allow_fresh=True)
+        c01.check_native_split(sub, base)
+
+    share_rule(ctx, "C01", _threading, "C15-D7 simulated-state")
+    ctx.floor("C15-D7", 5)
     ctx.floor("C15-D1", 14)
     ctx.floor("C15-D2", 2)
     ctx.floor("C15-D3", 4)
